@@ -267,8 +267,8 @@ SUBCHECKS = {"perturb-all": check_spec, "perturb": check_spec, "random-xml": che
 def run(ctx):
     n = ctx.each("perturb-all", perturb_all_cases(), check_spec, stop_after=6)
     ctx.exhaustive["perturb-all"] = {"n_cases": n, "complete": True, "bound": f"{len(ALL_KINDS)} kinds x constrained fields x {len(CATALOGUE)} replacements ({len(KIND_REPLACEMENTS)} for tags)"}
-    ctx.hyp("perturb", perturbed_spec(), check_spec, ctx.scale(1000, 30000))
-    ctx.hyp("random-xml", random_xml(), check_xml, ctx.scale(400, 10000))
+    ctx.hyp("perturb", perturbed_spec(), check_spec, ctx.scale(1000, 15000))
+    ctx.hyp("random-xml", random_xml(), check_xml, ctx.scale(400, 5000))
     acc = ctx.classes.get("perturb:accepted", 0)
     rej = ctx.classes.get("perturb:rejected", 0)
     if acc + rej >= 200 and acc < 0.3 * (acc + rej) and not ctx.violations and not ctx.known_hits:
